@@ -353,7 +353,8 @@ def path_text(path) -> str:
 
 
 class ReachingDefs:
-    """Reaching definitions for local names and self.<attr> within one function."""
+    """Reaching definitions for local names and dotted attributes within one function (subscript stores count as
+    definitions of their base)."""
 
     def __init__(self, cfg: CFG):
         from ..cfg import forward
@@ -363,20 +364,23 @@ class ReachingDefs:
 
         def transfer(n, st):
             a = n.ast
-            if a is None or n.kind == "test":
+            if a is None:
+                return st
+            if n.kind == "test":
                 tg = set()
-                if a is not None:
-                    tg = {t for t in assigned_targets(a)} if any(isinstance(x, ast.NamedExpr) for x in ast.walk(a)) else set()
+                for x in ast.walk(a):
+                    if isinstance(x, ast.NamedExpr) and isinstance(x.target, ast.Name):
+                        tg.add(x.target.id)
+            elif isinstance(a, (ast.stmt, ast.ExceptHandler)):
+                tg = assigned_targets(a)
             else:
-                tg = assigned_targets(a) if isinstance(a, (ast.stmt, ast.ExceptHandler)) else set()
+                tg = set()
             if not tg:
                 return st
             d = dict(st)
+            self.defsites[n.id] = a
             for t in tg:
-                is_aug = isinstance(a, ast.AugAssign)
-                self.defsites[n.id] = a
                 d[t] = frozenset({n.id})
-                _ = is_aug
             return frozenset(d.items())
 
         def join(a, b):
@@ -395,8 +399,6 @@ class ReachingDefs:
             return []
         ids = dict(st).get(name, frozenset({-1}))
         return [self.defsites.get(i) if i >= 0 else None for i in sorted(ids)]
-
-
 def or_terms(e: ast.expr) -> List[ast.expr]:
     if isinstance(e, ast.BinOp) and isinstance(e.op, ast.BitOr):
         return or_terms(e.left) + or_terms(e.right)
